@@ -14,7 +14,14 @@ LEVEL_TEXT = ("Coq theorems over an exact-rational model of the four from_gmat e
               "not for re-estimated ones), max/min attained bounds, mean, max_inbreeding = largest diagonal entry, checked two-sided inverse (also for the kinship "
               "format), min_inbreeding = 1/1'G^-1 1 is the attained minimum of x'Gx over sum(x)=1, soundness of the LDL' eigenvalue-margin certificate, and "
               "estimated reference frequencies always give a singular matrix (1'G1 = 0); the model is tied to the code by evaluating it inside Coq against the "
-              "implementation's outputs (exact on dyadic grids, 2^-30 otherwise) for every class, factory, format and argument form")
+              "implementation's outputs (exact on dyadic grids, 2^-30 otherwise, and within 2^-30 of an input-derived scale bound so that tiny weights / "
+              "frequencies are not compared loosely) for every class, factory, format and argument form, on genotype matrices obtained through the library's "
+              "own routes (copies, select_taxa, mat setter, in-place update after warm-up calls, grouping); the kernel expressions of the four from_gmat "
+              "estimators, of the argument range checks, of every kinship halving, of min_inbreeding / inverse / is_positive_semidefinite and the label / "
+              "factory wiring are regenerated from the source on every run (Gen/C13_Kernel.v), the estimators assembled from them are proved Leibniz-equal to "
+              "the hand model and the theorems are restated about them; Yang's square-root scaling is proved equal (over the reals) to the rational closed "
+              "form; an implementation-level lifecycle check (copies equal and independent, relationship-side select_taxa, multi-call sessions with in-place "
+              "and setter updates equal to a fresh object in the same state, aliasing with the source, every public entry point classified by introspection)")
 LEVEL_NOTE = ("trusted: Coq kernel + vm_compute; numpy/BLAS float arithmetic is compared, not modelled: exact equality where every operation is exact "
               "(dyadic grids), else 2^-30 relative against the exact rational; square roots (Yang) are not modelled (rational closed form); "
               "numpy.linalg.inv/eigvals compared only on matrices certified well-conditioned / with an exact, proved-sound LDL' margin, and inside Coq only "
@@ -23,22 +30,56 @@ TECHNIQUE = "Coq proof over an exact-rational executable model; in-Coq vm_comput
 PROPS = "Props/C13.v"
 IMPORTS = "From PV Require Import Lib.Common Model.C13_Coanc.\nImport String.\nLocal Open Scope Q_scope."
 SHARD = 12
-RULE = ("case = (estimator mol|vr|yang|gw, class or factory, phased|unphased, ploidy 1..4, allele matrix, labels or none, reference-frequency argument "
+RULE = ("first case = entry-point audit (every public class / method / parameter of pybrops.popgen.cmat is covered or listed in SKIPPED, else a violation); "
+        "every other case additionally carries route (how the genotype matrix object is obtained: ctor|copy|deepcopy|method_deepcopy|select_taxa from a larger "
+        "population|mat setter after warm-up on another matrix|in-place overwrite after warm-up|grouped) and subroute (taxa selected by the harness or by "
+        "gmat.select_taxa); weights scaled by 2^-40..2^+20 and frequencies 2^-k / 1-2^-k (k = 8..40), with exact zeros beside them; "
+        "case = (estimator mol|vr|yang|gw, class or factory, phased|unphased, ploidy 1..4, allele matrix, labels or none, reference-frequency argument "
         "none|scalar|array, marker-weight argument none|scalar|array, taxa index list (permutation / subset / with repeats), accessor index pair, "
         "eigenvalue tolerance); one PRNG; a fixed sweep (every estimator x phased/unphased x ploidy 1,2 x six tiny shapes, plus indefinite matrices from "
         "negative ndarray weights) then random cases: n in 1..10 (thorough ..16), markers 0..12 (thorough ..32) with powers of two over-represented "
         "(exact regime), columns forced fixed-0 / fixed-max / heterozygous / polymorphic, duplicated taxa, frequencies on dyadic grids, 20-bit dyadics and "
         "arbitrary binary64 values (rounding regime), endpoints 0 and 1, Integral scalars, out-of-range and wrong-length arguments, unsupported ploidy; "
         "non-trivial = n >= 2, at least one polymorphic marker, finite result; distinct by SHA-256 of the case")
-TRUSTED = ["BLAS matrix products / numpy reductions: compared exactly on dyadic grids (every partial sum representable), else within 2^-30 of the exact rational",
+TRUSTED = ["harness/translate/c13_kernel.py + pyexpr.py (fail-closed translators of the kernel expressions; a construct outside the fragment or a changed statement shape is an error of the check)",
+           "BLAS matrix products / numpy reductions: compared exactly on dyadic grids (every partial sum representable), else within 2^-30 of the exact rational",
            "numpy.linalg.inv and eigvals are compared only where the exact inverse (checked G*H = I in Q) is well-conditioned "
            "(n*max|G|*max|H| <= 1000) and where an exact LDL' certificate puts the smallest eigenvalue clear of the threshold",
            "the Gauss-Jordan and LDL' routines of the model are untrusted search procedures: their results are accepted only through exact checks"]
 ASSUMPTIONS = ["allele counts in 0..ploidy, int8 storage as the genotype-matrix constructors require; at least one taxon",
-               "Yang: 1/sqrt(ploidy p(1-p)) applied to both factors is modelled as division by ploidy p(1-p)"]
+               "Yang: 1/sqrt(ploidy p(1-p)) applied to both factors is modelled as division by ploidy p(1-p) (proved equal over the reals: C13_kernel_yang_sqrt)"]
 
 EST = ("mol", "vr", "yang", "gw")
 BIG_N = 8
+# how the genotype matrix object is obtained (the library's own routes, not only the constructor): each estimator must see the
+# state at the call, whatever was computed on the object before
+ROUTES = ("ctor", "ctor", "copy", "deepcopy", "method_deepcopy", "select_taxa", "mat_setter", "inplace", "grouped")
+
+# ------------------------------------------------------------------ entry points (fail closed: see _audit)
+COVERED_CLASSES = {
+    "DenseCoancestryMatrix": "views, accessors, summaries, inverse, copies, selection, sessions (through the four concrete classes)",
+    "DenseMolecularCoancestryMatrix": "from_gmat", "DenseVanRadenCoancestryMatrix": "from_gmat",
+    "DenseYangCoancestryMatrix": "from_gmat", "DenseGeneralizedWeightedCoancestryMatrix": "from_gmat",
+    "DenseMolecularCoancestryMatrixFactory": "from_gmat", "DenseVanRadenCoancestryMatrixFactory": "from_gmat",
+    "DenseYangCoancestryMatrixFactory": "from_gmat", "DenseGeneralizedWeightedCoancestryMatrixFactory": "from_gmat"}
+SKIPPED = {
+    "CoancestryMatrix": "abstract interface, no code of its own",
+    "CoancestryMatrixFactory": "abstract interface, no code of its own",
+    "DenseCoancestryMatrixFactory": "base class; its from_gmat delegates to the abstract DenseCoancestryMatrix.from_gmat (no estimator)",
+    "DenseCoancestryMatrix.apply_jitter": "random diagonal perturbation drawn from the global numpy stream; not a clause of C13 (reproducibility: C08)",
+    "DenseCoancestryMatrix.to_pandas": "persistence / tabular export: property C16", "DenseCoancestryMatrix.to_csv": "property C16",
+    "DenseCoancestryMatrix.to_hdf5": "property C16", "DenseCoancestryMatrix.from_pandas": "property C16",
+    "DenseCoancestryMatrix.from_csv": "property C16", "DenseCoancestryMatrix.from_hdf5": "property C16"}
+# public methods / properties defined by the covered classes, with the parameters the driver exercises
+COVERED_METHODS = {
+    "__init__": {"self", "mat", "taxa", "taxa_grp", "kwargs"},
+    "from_gmat": {"cls", "self", "gmat", "p_anc", "mkrwt", "afreq", "kwargs"},
+    "mat_asformat": {"self", "format"}, "coancestry": {"self", "args", "kwargs"}, "kinship": {"self", "args", "kwargs"},
+    "is_positive_semidefinite": {"self", "eigvaltol"}, "max_inbreeding": {"self", "format"}, "min_inbreeding": {"self", "format"},
+    "inverse": {"self", "format"}, "max": {"self", "format", "axis"}, "min": {"self", "format", "axis"},
+    "mean": {"self", "format", "axis", "dtype"},
+    "mat": {"self"}, "taxa": {"self"}, "taxa_grp": {"self"}, "taxa_grp_name": {"self"}, "taxa_grp_stix": {"self"},
+    "taxa_grp_spix": {"self"}, "taxa_grp_len": {"self"}}
 
 # ------------------------------------------------------------------ generation
 def _pow2(k): return k > 0 and (k & (k - 1)) == 0
@@ -72,6 +113,13 @@ def _gen_freq(rng, m, est, n, allow_bad=True):
     else: ugly = lambda: rng.randint(2 ** 14, 2 ** 20 - 2 ** 14) / float(2 ** 20)
     # arbitrary binary64 values (53-bit numerators) only for few taxa: the exact inverse / LDL' in Coq grow with n
     classic = (lambda: rng.choice([0.1, 0.3, 1.0 / 3.0, 0.7, rng.uniform(0.02, 0.98)])) if n <= 4 else ugly
+    # tiny / near-one frequencies (2^-k, 1 - 2^-k): exact zeros have tiny non-zero neighbours; every value is still a dyadic rational
+    tiny = lambda: rng.choice([2.0 ** -rng.randint(8, 40), 1.0 - 2.0 ** -rng.randint(8, 40)])
+    if (est != "yang" or m <= 6) and rng.random() < 0.12:
+        if k < 0.56: return {"s": tiny()}
+        a = [rng.choice([tiny, tiny, grid])() for _ in range(m)]
+        if m and rng.random() < 0.4: a[rng.randrange(m)] = rng.choice([0.0, 1.0])
+        return {"a": a}
     if k < 0.56:
         r = rng.random()
         if r < 0.45: return {"s": grid()}
@@ -103,6 +151,13 @@ def _gen_wt(rng, m, n):
     grid = lambda: rng.randint(0, 64) / 16.0
     ugly = lambda: rng.randint(1, 2 ** 22) / float(2 ** 20)
     classic = (lambda: rng.choice([0.1, 1.0 / 3.0, 2.7, rng.uniform(0.0, 5.0)])) if n <= 4 else ugly
+    if rng.random() < 0.2:                                                   # weights far from 1: 2^-40 .. 2^+20, still dyadic
+        sc = 2.0 ** rng.choice([-40, -30, -20, -10, 10, 20])
+        if k < 0.5: return {"s": rng.randint(1, 64) / 16.0 * sc}
+        a = [rng.randint(0, 64) / 16.0 * sc for _ in range(m)]
+        if m and rng.random() < 0.5: a[rng.randrange(m)] = 0.0                # exact zero next to tiny non-zeros
+        if m and rng.random() < 0.3: a[rng.randrange(m)] = rng.randint(1, 64) / 16.0   # ... and next to an ordinary weight
+        return {"a": a}
     if k < 0.5:
         r = rng.random()
         if r < 0.5: return {"s": grid()}
@@ -153,10 +208,16 @@ def _one(rng, tier, est=None, n=None, m=None, ploidy=None, phased=None):
     case["sel"] = sel
     case["ij"] = [rng.randrange(n), rng.randrange(n)]
     case["tol"] = rng.choice([1e-3, 0.125, 0.5, 1.0, 2.0, 8.0, 100.0])
+    case["route"] = rng.choice(ROUTES)
+    case["subroute"] = rng.choice(["index", "select"])
+    if case["route"] == "grouped":
+        # labels already in (group, name) order and unique: grouping sorts with the identity permutation, the matrix keeps its order
+        case["taxa"] = ["t%02d" % k for k in sorted(rng.sample(range(100), n))]
+        case["grp"] = sorted(rng.randint(0, 3) for _ in range(n))
     return case
 
 def gen_cases(rng, tier):
-    cases = []
+    cases = [{"audit": True}]
     # systematic corner sweep: every estimator x {unphased, phased} x ploidy x tiny sizes, with default arguments
     for est in EST:
         for phased in (False, True):
@@ -242,6 +303,51 @@ def _gmat(case, sel=None):
     if phased: return DensePhasedGenotypeMatrix(mat, taxa=taxa, taxa_grp=grp)
     return DenseGenotypeMatrix(mat, taxa=taxa, taxa_grp=grp, ploidy=case["ploidy"])
 
+def _route_gmat(case):
+    """the genotype matrix of the case, obtained through one of the library's own routes (case["route"]); where the route goes
+    through an intermediate state (another matrix on the same object) everything cacheable is computed on that state first"""
+    import copy
+    r = case.get("route", "ctor")
+    g = _gmat(case)
+    if r == "ctor": return g
+    if r == "copy": return copy.copy(g)
+    if r == "deepcopy": return copy.deepcopy(g)
+    if r == "method_deepcopy": return g.deepcopy()
+    if r == "grouped":
+        g.group_taxa(); return g
+    phased = case["kind"] == "phased"
+    want = g.mat.copy()
+    def warm(x):
+        for f in (lambda: x.afreq(), lambda: x.tacount(), lambda: x.tacount(int), lambda: (x.ploidy, x.nvrnt, x.ntaxa), lambda: _build(case, x)):
+            try: f()
+            except Exception: pass
+    if r in ("mat_setter", "inplace"):
+        other = dict(case)
+        if r == "mat_setter":                                      # same shape, complemented alleles
+            other["mat"] = (1 - want).tolist() if phased else (case["ploidy"] - want).tolist()
+        else:
+            other["mat"] = numpy.zeros_like(want).tolist()
+        g2 = _gmat(other); warm(g2)
+        if r == "mat_setter": g2.mat = want
+        else: g2.mat[...] = want
+        return g2
+    if r == "select_taxa":                                         # a larger population, then the library's own selection
+        n = want.shape[1] if phased else want.shape[0]
+        e = min(n, 2)
+        order = list(range(e)) + list(range(n - 1, -1, -1))        # rows of the big matrix: e extra taxa, then the originals reversed
+        big = dict(case)
+        if phased:
+            ext = (1 - want[:, :e, :])
+            big["mat"] = numpy.concatenate([ext, want[:, ::-1, :]], axis=1).tolist()
+        else:
+            ext = case["ploidy"] - want[:e, :]
+            big["mat"] = numpy.concatenate([ext, want[::-1, :]], axis=0).tolist()
+        big["taxa"] = None if case["taxa"] is None else ["x%d" % k for k in range(e)] + case["taxa"][::-1]
+        big["grp"] = None if case["grp"] is None else [7] * e + case["grp"][::-1]
+        gb = _gmat(big); warm(gb)
+        return gb.select_taxa(numpy.array([e + n - 1 - i for i in range(n)]))
+    raise ValueError("unknown route " + r)
+
 def _build(case, g):
     C, F = _classes(case["est"])
     kw = {}
@@ -263,12 +369,115 @@ def _num(f):
     try: return float(f()).hex()
     except Exception as e: return {"exc": type(e).__name__}
 
+def _lab(x):
+    return None if x is None else [str(v) for v in x]
+def _ints(x):
+    return None if x is None else [int(v) for v in x]
+
+def _summ(c, tol):
+    """every view / summary of the object, bit-exact (hex) or the exception's name"""
+    s = {}
+    for f in ("coancestry", "kinship"):
+        s["view_" + f] = _try(lambda: _hx(c.mat_asformat(f)))
+        for nm in ("max", "min", "mean"):
+            for ax in (None, 0, 1):
+                s["%s_%s_%s" % (nm, f, ax)] = _try(lambda: _hx(getattr(c, nm)(f, ax)))
+        s["maxinb_" + f] = _num(lambda: c.max_inbreeding(f)); s["mininb_" + f] = _num(lambda: c.min_inbreeding(f))
+        s["inv_" + f] = _try(lambda: _hx(c.inverse(f)))
+    s["psd"] = _try(lambda: bool(c.is_positive_semidefinite(tol)))
+    s["c00"] = _num(lambda: c.coancestry(0, 0)); s["k00"] = _num(lambda: c.kinship(0, 0))
+    return s
+
+_META = ("taxa_grp_name", "taxa_grp_stix", "taxa_grp_spix", "taxa_grp_len")
+
+def _life(case, g, c, C):
+    """object lifecycle, sessions, aliasing and the remaining parameter forms, observed on the implementation only"""
+    import copy
+    L = {}
+    G = c.mat.copy(); tol = case["tol"]; n = G.shape[0]
+    taxa0, grp0 = _lab(c.taxa), _ints(c.taxa_grp)
+    base = _summ(c, tol)
+    for nm, mk in (("copy", lambda: copy.copy(c)), ("deepcopy", lambda: copy.deepcopy(c)), ("m_copy", lambda: c.copy()), ("m_deepcopy", lambda: c.deepcopy())):
+        d = mk()
+        L[nm] = {"cls": type(d) is type(c), "same": bool(_summ(d, tol) == base and numpy.array_equal(d.mat, G)),
+                 "labels": _lab(d.taxa) == taxa0 and _ints(d.taxa_grp) == grp0,
+                 "meta": all(_ints(getattr(d, k)) == _ints(getattr(c, k)) for k in _META),
+                 "fresh": not numpy.shares_memory(d.mat, c.mat) and (c.taxa is None or d.taxa is not c.taxa)}
+    d = copy.deepcopy(c)
+    d.mat[0, 0] += 1.0
+    if d.taxa is not None: d.taxa[0] = "zz#"
+    if d.taxa_grp is not None: d.taxa_grp[0] += 1000
+    L["deepcopy_independent"] = bool(numpy.array_equal(c.mat, G)) and _lab(c.taxa) == taxa0 and _ints(c.taxa_grp) == grp0
+    # does the relationship matrix share mutable label arrays with the genotype matrix it came from?
+    sh = lambda a, b: a is not None and b is not None and (a is b or bool(numpy.shares_memory(a, b)))
+    L["shares"] = [k for k in ("taxa", "taxa_grp") + _META if sh(getattr(c, k), getattr(g, k))]
+    L["shares_mat"] = bool(numpy.shares_memory(c.mat, g.mat))
+    # selection on the relationship side (both axes)
+    sel = numpy.array(case["sel"])
+    s = c.select_taxa(sel)
+    L["select"] = {"G": _hx(s.mat), "taxa": _lab(s.taxa), "grp": _ints(s.taxa_grp), "cls": type(s) is type(c)}
+    # sessions: one object, summaries, an in-place update of its matrix, summaries again, the setter, summaries again
+    mk = lambda M: C(mat=M.copy(), taxa=None if c.taxa is None else c.taxa.copy(), taxa_grp=None if c.taxa_grp is None else c.taxa_grp.copy())
+    w = copy.deepcopy(c); _summ(w, tol)
+    G2 = 2.0 * G + numpy.eye(n)
+    w.mat[...] = G2
+    L["session_inplace"] = bool(_summ(w, tol) == _summ(mk(G2), tol))
+    G3 = 0.5 * G.T + 0.25
+    w.mat = G3.copy()
+    L["session_setter"] = bool(_summ(w, tol) == _summ(mk(G3), tol))
+    L["orig_unchanged"] = bool(numpy.array_equal(c.mat, G)) and _summ(c, tol) == base
+    # remaining parameter forms
+    L["axis_tuple"] = [_num(lambda: c.max("kinship", (0, 1))), _num(lambda: c.min("coancestry", (0, 1))), _num(lambda: c.mean("kinship", (0, 1)))]
+    L["axis_neg"] = [_try(lambda: _hx(c.max(axis=-1))), _try(lambda: _hx(c.min(format="kinship", axis=-1))), _try(lambda: _hx(c.mean("kinship", -1)))]
+    mf = c.mean("kinship", None, "float32")
+    L["mean_f32"] = [float(mf).hex(), str(numpy.asarray(mf).dtype)]
+    i, j = case["ij"]
+    L["row_acc"] = [_try(lambda: _hx(c.coancestry(i))), _try(lambda: _hx(c.kinship(slice(None), j)))]
+    L["meta"] = {k: _ints(getattr(c, k)) for k in _META}
+    L["g_meta"] = {k: _ints(getattr(g, k)) for k in _META}
+    L["grouped"] = [bool(c.is_grouped_taxa()), bool(g.is_grouped_taxa())]
+    return L
+
+def _audit():
+    """enumerate by introspection every public class / function of pybrops.popgen.cmat and every public method (with its
+    parameters) defined by the covered classes; whatever is neither covered nor listed as skipped is reported"""
+    import pkgutil, importlib, inspect
+    import pybrops.popgen.cmat as pk
+    unknown, seen = [], []
+    for mi in pkgutil.walk_packages(pk.__path__, pk.__name__ + "."):
+        if mi.ispkg: continue
+        m = importlib.import_module(mi.name)
+        for n, o in sorted(vars(m).items()):
+            if getattr(o, "__module__", None) != mi.name or n.startswith("_"): continue
+            if inspect.isfunction(o):
+                if not n.startswith("check_is_"): unknown.append("function %s.%s" % (mi.name, n))
+                continue
+            if not inspect.isclass(o): continue
+            seen.append(n)
+            if n in SKIPPED: continue
+            if n not in COVERED_CLASSES:
+                unknown.append("class %s.%s" % (mi.name, n)); continue
+            for k, v in sorted(vars(o).items()):
+                if k.startswith("_") and k != "__init__": continue
+                if "%s.%s" % (n, k) in SKIPPED: continue
+                if k not in COVERED_METHODS:
+                    unknown.append("method %s.%s" % (n, k)); continue
+                f = v.__func__ if isinstance(v, (classmethod, staticmethod)) else (v.fget if isinstance(v, property) else v)
+                try: ps = set(inspect.signature(f).parameters)
+                except (TypeError, ValueError): ps = set()
+                extra = ps - COVERED_METHODS[k]
+                if extra: unknown.append("parameter(s) %s of %s.%s" % (sorted(extra), n, k))
+    missing = [n for n in COVERED_CLASSES if n not in seen]
+    return {"unknown": unknown, "missing": missing, "classes": len(seen)}
+
 def run_impl(case):
     import warnings
     warnings.simplefilter("ignore")
     numpy.seterr(all="ignore")
+    if case.get("audit"):
+        return {"audit": _audit()}
     out = {}
-    g = _gmat(case)
+    g = _route_gmat(case)
     before = g.mat.copy()
     try:
         c, C, same = _build(case, g)
@@ -313,9 +522,12 @@ def run_impl(case):
             out["psd_neg"] = _try(lambda: bool(c.is_positive_semidefinite(-1.0)))
             out["psd_tol"] = _try(lambda: bool(c.is_positive_semidefinite(case["tol"])))
             out["mat_unchanged"] = bool(numpy.array_equal(c.mat, G0))
+            try: out["life"] = _life(case, g, c, C)
+            except Exception as e: out["life"] = {"exc": type(e).__name__, "msg": str(e)[:200]}
     out["gmat_unchanged"] = bool(numpy.array_equal(g.mat, before))
-    # the same estimator on the selected / permuted taxa
-    gs = _gmat(case, case["sel"])
+    # the same estimator on the selected / permuted taxa (rows picked by the harness, or by the library's own select_taxa)
+    if case.get("subroute") == "select": gs = g.select_taxa(numpy.array(case["sel"], dtype=int))
+    else: gs = _gmat(case, case["sel"])
     try:
         cs, _, _ = _build(case, gs)
         out["sub"] = {"G": _hx(cs.mat), "taxa": None if cs.taxa is None else [str(x) for x in cs.taxa],
@@ -375,6 +587,38 @@ def _exact_regime(case, sel=None):
     D = pl * sum(x * (1 - x) for x in p)
     return D > 0 and (_pow2(D.numerator) and D.denominator == 1 or D.numerator == 1 and _pow2(D.denominator))
 
+def _mean_slack(flat):
+    """a mean of n^2 entries carries a summation error of up to ~n^2 ulp(max|G|) even when the exact mean cancels to 0 (estimated
+    frequencies: 1'G1 = 0): for matrices with entries beyond 2^11 (marker weights scaled up) the absolute part of the 2^-30 (1+|y|)
+    tolerance no longer covers it, and 2^-40 max|G| is added; ordinary matrices are compared exactly as before (slack 0)"""
+    mx = max([abs(x) for x in flat] or [Fraction(0)])
+    return Fraction(0) if mx <= 2 ** 11 else mx / 2 ** 40
+
+def _scale_tol(case, sel=None):
+    """2^-30 times an a-priori bound S of the entries that follows from the INPUT alone (|Z| <= ploidy):
+    weighted: ploidy^2 sum|w|;  VanRaden: m ploidy / sum p(1-p);  Yang: (1/m) sum ploidy / (p(1-p)).  Every rounding error of the
+    float evaluation is below a few hundred ulps of S, while a result that is off by a factor, or that treats tiny weights /
+    frequencies as zero, is not: unlike 2^-30 (1 + |y|) this tolerance shrinks with the scale of the data.  None = not applicable."""
+    est = case["est"]; pl = case["ploidy"]
+    if est == "mol": return None
+    kind, _ = _formula(case, sel)
+    if kind != "ok": return None
+    n, m = _dims(case)
+    d = _dos(case, sel); n = len(d)
+    pr = case["pref"]
+    if pr is None: p = [Fraction(sum(d[i][k] for i in range(n)), pl * n) for k in range(m)]
+    elif "s" in pr: p = [Fraction(pr["s"])] * m
+    else: p = [Fraction(x) for x in pr["a"]]
+    if est == "gw":
+        w = case["wt"]
+        w = [Fraction(1)] * m if w is None else ([Fraction(w["s"])] * m if "s" in w else [Fraction(x) for x in w["a"]])
+        S = pl * pl * sum(abs(x) for x in w)
+    elif est == "vr":
+        S = Fraction(m * pl) / sum(x * (1 - x) for x in p)
+    else:
+        S = sum(Fraction(pl) / (x * (1 - x)) for x in p) / m
+    return S / 2 ** 30
+
 # ------------------------------------------------------------------ Coq emitter
 _ERR = {"ValueError": "EValue", "TypeError": "EType", "RuntimeError": "EOther", "ZeroDivisionError": "EOther", "IndexError": "EIndex"}
 def _q(h): return E.q(_fr(h))
@@ -425,11 +669,14 @@ def _emit_sub(case, out):
         return "(is_nonfinite %s && %s)" % (mdl, E.b(not any(math.isfinite(_fh(h)) for r in s["G"] for h in r)))
     ex = E.b(_exact_regime(case, case["sel"]))
     t, g = _labels(case, case["sel"])
+    tl = _scale_tol(case, case["sel"])
+    within = "" if tl is None else " && mat_within %s Si Gs" % E.q(tl)
     lab = "sopt_eqb %s %s && zopt_eqb %s %s" % (E.opt(s["taxa"], lambda l: E.lst(l, E.s)), E.opt(t, lambda l: E.lst(l, E.s)),
                                                E.opt(s["grp"], lambda l: E.lst(l, E.z)), E.opt(g, lambda l: E.lst(l, E.z)))
-    return "(match %s with ROk Gs => mat_agree %s %s Gs && %s | _ => false end)" % (mdl, ex, E.lst2(s["G"], _q), lab)
+    return "(match %s with ROk Gs => let Si := %s in mat_agree %s Si Gs%s && %s | _ => false end)" % (mdl, E.lst2(s["G"], _q), ex, within, lab)
 
 def emit_case(case, out):
+    if case.get("audit"): return None
     if "exc" in out: return "false"
     mdl = _model(case)
     sub = _emit_sub(case, out)
@@ -446,18 +693,21 @@ def emit_case(case, out):
     big = _dims(case)[0] > BIG_N
     t, g = _labels(case)
     P = []
-    P.append("mat_agree %s %s G" % (ex, L2(out["G"], Q)))
+    P.append("mat_agree %s Gi G" % ex)
+    slack = E.q(_mean_slack([_fr(h) for r in out["G"] for h in r]))
+    tl = _scale_tol(case)
+    if tl is not None: P.append("mat_within %s Gi G" % E.q(tl))
     P.append("sopt_eqb %s (cm_taxa cm) && zopt_eqb %s (cm_grp cm)" % (E.opt(out["taxa"], lambda l: L1(l, E.s)), E.opt(out["grp"], lambda l: L1(l, E.z))))
     P.append("mat_agree %s %s (mat_asformat Coancestry G)" % (ex, L2(out["coan"], Q)))
     P.append("mat_agree %s %s (mat_asformat Kinship G)" % (ex, L2(out["kin"], Q)))
     P.append("mat_agree %s %s (mat_asformat Kinship G)" % (ex, L2(out["kin_mixedcase"], Q)))
     P.append("q_agree %s %s (coancestry G %d %d) && q_agree %s %s (kinship G %d %d)" % (ex, Q(out["c_ij"]), i, j, ex, Q(out["k_ij"]), i, j))
     for f, t_ in (("Coancestry", "c"), ("Kinship", "k")):
-        P.append("q_agree %s %s (max_all %s G) && q_agree %s %s (min_all %s G) && Qclose %s (mean_all %s G)"
-                 % (ex, Q(out["max_" + t_]), f, ex, Q(out["min_" + t_]), f, Q(out["mean_" + t_]), f))
+        P.append("q_agree %s %s (max_all %s G) && q_agree %s %s (min_all %s G) && mean_agree %s %s (mean_all %s G)"
+                 % (ex, Q(out["max_" + t_]), f, ex, Q(out["min_" + t_]), f, slack, Q(out["mean_" + t_]), f))
         for ax in (0, 1):
-            P.append("vec_agree %s %s (red_axis maxl %s %d G) && vec_agree %s %s (red_axis minl %s %d G) && qclose_l %s (red_axis meanl %s %d G)"
-                     % (ex, L1(out["max_%s%d" % (t_, ax)], Q), f, ax, ex, L1(out["min_%s%d" % (t_, ax)], Q), f, ax, L1(out["mean_%s%d" % (t_, ax)], Q), f, ax))
+            P.append("vec_agree %s %s (red_axis maxl %s %d G) && vec_agree %s %s (red_axis minl %s %d G) && meanl_agree %s %s (red_axis meanl %s %d G)"
+                     % (ex, L1(out["max_%s%d" % (t_, ax)], Q), f, ax, ex, L1(out["min_%s%d" % (t_, ax)], Q), f, ax, slack, L1(out["mean_%s%d" % (t_, ax)], Q), f, ax))
         P.append("q_agree %s %s (max_inbreeding %s G)" % (ex, Q(out["maxinb_" + t_]), f))
         P.append("inv_agree %s %s G Hc" % (_optmat(out["inv_" + t_]), f))
         P.append("mininb_agree %s %s G Hc" % (_optq(out["mininb_" + t_]), f))
@@ -469,7 +719,7 @@ def emit_case(case, out):
     P.append(sub)
     lt, lg = E.opt(t, lambda l: L1(l, E.s)), E.opt(g, lambda l: L1(l, E.z))
     hc = "@None (list (list Q))" if big else "inv_checked G"
-    return ("(match with_labels %s %s %s with ROk cm => let G := cm_mat cm in let Hc := %s in\n     " % (lt, lg, mdl, hc)
+    return ("(match with_labels %s %s %s with ROk cm => let G := cm_mat cm in let Hc := %s in let Gi := %s in\n     " % (lt, lg, mdl, hc, L2(out["G"], Q))
             + "\n  && ".join(P) + "\n   | _ => false end)")
 
 # ------------------------------------------------------------------ independent predicate
@@ -562,6 +812,10 @@ def _close(x, y, rel=Fraction(1, 10 ** 9)):
 def pred(case, out):
     """the property, stated directly on the implementation's outputs (independent of the Coq model)"""
     if "exc" in out: return ["driver/implementation raised %s: %s" % (out["exc"], out["msg"])]
+    if case.get("audit"):
+        a = out["audit"]
+        return (["entry point neither covered nor listed as skipped: " + u for u in a["unknown"]]
+                + ["covered class no longer found: " + u for u in a["missing"]])[:8]
     bad = []
     n, m = _dims(case)
     kind, Gx = _formula(case)
@@ -584,9 +838,11 @@ def pred(case, out):
     if len(G) != n or any(len(r) != n for r in G): bad.append("matrix is not ntaxa x ntaxa")
     if out["ntaxa"] != n: bad.append("ntaxa")
     # 1. equals the published formula
+    tl = _scale_tol(case)
     for i in range(n):
         for j in range(n):
             ok = (G[i][j] == Gx[i][j]) if ex else _close(G[i][j], Gx[i][j])
+            if ok and tl is not None and abs(G[i][j] - Gx[i][j]) > tl: ok = False      # relative to the scale of the input
             if not ok:
                 bad.append("%s matrix differs from its formula at [%d][%d]: %r vs %s" % (case["est"], i, j, float(G[i][j]), float(Gx[i][j]))); break
         else: continue
@@ -618,7 +874,9 @@ def pred(case, out):
         else:
             S = [[_fr(h) for h in r] for r in s["G"]]
             exs = _exact_regime(case, sel)
-            if any(not ((S[a][b] == Gs[a][b]) if exs else _close(S[a][b], Gs[a][b])) for a in range(len(sel)) for b in range(len(sel))):
+            tls = _scale_tol(case, sel)
+            if any(not ((S[a][b] == Gs[a][b]) if exs else _close(S[a][b], Gs[a][b])) or (tls is not None and abs(S[a][b] - Gs[a][b]) > tls)
+                   for a in range(len(sel)) for b in range(len(sel))):
                 bad.append("matrix of the selected taxa differs from its formula")
             if s["taxa"] != (None if case["taxa"] is None else [case["taxa"][k] for k in sel]): bad.append("labels of the selected taxa")
             if s["grp"] != (None if case["grp"] is None else [case["grp"][k] for k in sel]): bad.append("group labels of the selected taxa")
@@ -639,12 +897,13 @@ def pred(case, out):
         if val("max_" + t) != c * max(flat): bad.append("max (%s)" % t)
         if val("min_" + t) != c * min(flat): bad.append("min (%s)" % t)
         mv = val("mean_" + t)
-        if mv is None or not _close(mv, c * sum(flat) / (n * n), Fraction(1, 10 ** 12)): bad.append("mean (%s)" % t)
+        slk = _mean_slack(flat) / 16
+        if mv is None or not (_close(mv, c * sum(flat) / (n * n), Fraction(1, 10 ** 12)) or abs(mv - c * sum(flat) / (n * n)) <= slk): bad.append("mean (%s)" % t)
         for ax in (0, 1):
             lines = [[G[a][b] for a in range(n)] for b in range(n)] if ax == 0 else G
             if [_fr(h) for h in out["max_%s%d" % (t, ax)]] != [c * max(l) for l in lines]: bad.append("max axis %d (%s)" % (ax, t))
             if [_fr(h) for h in out["min_%s%d" % (t, ax)]] != [c * min(l) for l in lines]: bad.append("min axis %d (%s)" % (ax, t))
-            if any(not _close(_fr(h), c * sum(l) / n, Fraction(1, 10 ** 12)) for h, l in zip(out["mean_%s%d" % (t, ax)], lines)) \
+            if any(not (_close(_fr(h), c * sum(l) / n, Fraction(1, 10 ** 12)) or abs(_fr(h) - c * sum(l) / n) <= slk) for h, l in zip(out["mean_%s%d" % (t, ax)], lines)) \
                or len(out["mean_%s%d" % (t, ax)]) != n: bad.append("mean axis %d (%s)" % (ax, t))
         if val("maxinb_" + t) != c * max(G[a][a] for a in range(n)): bad.append("max_inbreeding (%s) is not the largest diagonal entry" % t)
     if out["max_default"] != out["max_c"] or out["maxinb_default"] != out["maxinb_c"] or out["mininb_default"] != out["mininb_c"]:
@@ -675,18 +934,72 @@ def pred(case, out):
         elif any(Gx[a][a] < tl - margin for a in range(n)): want = False
         if want is not None and out[key] is not want: bad.append("is_positive_semidefinite (%s) returned %r, certified %r" % (key, out[key], want))
     if not out["mat_unchanged"]: bad.append("matrix mutated by a view / summary")
+    bad += _pred_life(case, out, G, n)
     seen = []
     for b in bad:
         if b not in seen: seen.append(b)
     return seen[:8]
 
+def _pred_life(case, out, G, n):
+    """lifecycle / session / aliasing clauses: results are functions of the state at the call; copies are equal and independent;
+    the relationship-side selection is the selection of rows and columns; no mutable array is shared with the source"""
+    L = out.get("life")
+    if L is None: return []
+    if "exc" in L: return ["lifecycle driver raised %s: %s" % (L["exc"], L.get("msg"))]
+    bad = []
+    for nm in ("copy", "deepcopy", "m_copy", "m_deepcopy"):
+        d = L[nm]
+        if not d["cls"]: bad.append("%s changes the class" % nm)
+        if not d["same"]: bad.append("%s: matrix or summaries differ from the original" % nm)
+        if not d["labels"] or not d["meta"]: bad.append("%s: labels / group metadata differ from the original" % nm)
+        if "deep" in nm and not d["fresh"]: bad.append("%s shares arrays with the original" % nm)
+    if not L["deepcopy_independent"]: bad.append("writing into a deep copy changed the original")
+    if L["shares_mat"]: bad.append("relationship matrix shares memory with the genotype matrix")
+    if L["shares"]: bad.append("from_gmat shares mutable label arrays with the genotype matrix: %s" % ",".join(L["shares"]))
+    sel = case["sel"]; s = L["select"]
+    if s["G"] != [[out["G"][a][b] for b in sel] for a in sel]: bad.append("select_taxa on the relationship matrix is not the selection of rows and columns")
+    if s["taxa"] != (None if case["taxa"] is None else [case["taxa"][k] for k in sel]) or \
+       s["grp"] != (None if case["grp"] is None else [case["grp"][k] for k in sel]) or not s["cls"]: bad.append("select_taxa on the relationship matrix: labels / class")
+    if not L["session_inplace"]: bad.append("session: summaries after an in-place update of the matrix differ from those of a fresh object in the same state")
+    if not L["session_setter"]: bad.append("session: summaries after assigning a new matrix differ from those of a fresh object in the same state")
+    if not L["orig_unchanged"]: bad.append("copies / selections / sessions changed the original object")
+    if L["axis_tuple"] != [out["max_k"], out["min_c"], out["mean_k"]]: bad.append("axis=(0,1) differs from axis=None")
+    if L["axis_neg"] != [out["max_c1"], out["min_k1"], out["mean_k1"]]: bad.append("axis=-1 differs from axis=1")
+    mf, dt = L["mean_f32"]
+    flat = [x for r in G for x in r]
+    want = sum(flat) / (2 * n * n); mx = max(abs(x) for x in flat)
+    if dt != "float32" or not (abs(_fr(mf) - want) <= Fraction(1, 10 ** 4) * mx + Fraction(1, 10 ** 30)): bad.append("mean(dtype=float32)")
+    i, j = case["ij"]
+    if L["row_acc"][0] != out["G"][i]: bad.append("coancestry(i) is not row i")
+    col = L["row_acc"][1]
+    if isinstance(col, dict) or [_fr(h) * 2 for h in col] != [G[a][j] for a in range(n)]: bad.append("kinship(:, j) is not half of column j")
+    if L["meta"] != L["g_meta"] or L["grouped"][0] != L["grouped"][1]: bad.append("group metadata not carried over from the genotype matrix")
+    if case.get("route") == "grouped":
+        grp = case["grp"]; names = sorted(set(grp))
+        stix = [grp.index(v) for v in names]; ln = [grp.count(v) for v in names]
+        want = {"taxa_grp_name": names, "taxa_grp_stix": stix, "taxa_grp_spix": [a + b for a, b in zip(stix, ln)], "taxa_grp_len": ln}
+        if L["meta"] != want: bad.append("group metadata of a grouped source: %r" % (L["meta"],))
+    return bad
+
 def nontrivial(case, out):
+    if case.get("audit"): return False
     n, m = _dims(case)
     d = _dos(case)
     poly = any(len({d[i][k] for i in range(n)}) > 1 for k in range(m))
     return n >= 2 and poly and out.get("finite", False)
 
+def _scale_class(case):
+    vals = []
+    for k in ("pref", "wt"):
+        a = case.get(k)
+        if a is not None: vals += [a["s"]] if "s" in a else list(a["a"])
+    vals = [abs(v) for v in vals if v not in (0, 1)]
+    if not vals: return "none"
+    lo, hi = min(min(v, abs(1 - v)) for v in vals), max(vals)
+    return "tiny (< 2^-8)" if lo < 2.0 ** -8 and hi <= 64 else "huge (> 2^8)" if hi > 256 else "ordinary"
+
 def describe(case, out):
+    if case.get("audit"): return {"kind": "entry-point audit"}
     n, m = _dims(case)
     a = lambda x: "none" if x is None else ("scalar" if "s" in x else "array")
     kind, Gx = _formula(case)
@@ -701,15 +1014,22 @@ def describe(case, out):
             "ntaxa": "1" if n == 1 else "2-4" if n <= 4 else "5-8" if n <= 8 else "9+", "nmarkers": "0" if m == 0 else "pow2" if _pow2(m) else "other",
             "ref_freq": a(case["pref"]), "weights": a(case["wt"]), "regime": "E" if _exact_regime(case) else "T",
             "outcome": "raised" if "raised" in out else ("non-finite" if not out.get("finite", True) else "matrix"),
+            "route": case.get("route", "ctor"), "subroute": case.get("subroute", "index"), "arg_scale": _scale_class(case),
             "formula": kind, "inverse": inv, "labels": "none" if case["taxa"] is None else "taxa" + ("+grp" if case["grp"] is not None else ""),
             "selection": "perm" if sorted(case["sel"]) == list(range(n)) else ("repeats" if len(set(case["sel"])) < len(case["sel"]) else "subset")}
 
 def classify(case, out, clauses):
+    """VanRaden / Yang hand `gmat.taxa`, `gmat.taxa_grp` and the group metadata to the new object without copying (the molecular
+    and weighted classes copy): the only clause may be the sharing one, on exactly these two estimators"""
+    if case.get("audit"): return None
+    if case.get("est") in ("vr", "yang") and clauses and all(c.startswith("from_gmat shares mutable label arrays with the genotype matrix") for c in clauses):
+        return "C13-vr-yang-share-label-arrays"
     return None
 
 def shrink(case, fails):
     """drop markers (with their per-marker arguments), then taxa, while the predicate still fails"""
     import copy
+    if case.get("audit"): return case
     cur = copy.deepcopy(case)
     ph = cur["kind"] == "phased"
     def dropcol(c, j):
@@ -739,3 +1059,10 @@ def shrink(case, fails):
         if fails(t): cur = t
         else: i += 1
     return cur
+
+
+def translate(repo, gen_dir):
+    """regenerate Gen/C13_Kernel.v (kernel expressions of the four from_gmat estimators, the argument checks, the views and
+    summaries of DenseCoancestryMatrix, and the label / factory wiring tables) from the current source; fail closed"""
+    from translate import c13_kernel
+    return [c13_kernel.translate(repo, gen_dir)]
